@@ -11,6 +11,8 @@ pub mod c02;
 #[cfg(kani)]
 pub mod c04;
 #[cfg(kani)]
+pub mod sm2stubs;
+#[cfg(kani)]
 pub mod c07;
 #[cfg(kani)]
 pub mod c16;
